@@ -234,9 +234,17 @@ impl SolverProp {
                 c.args = c.args.iter().map(|t| t.map_vars(&mut f)).collect();
                 c.body = c.body.as_ref().map(|b| b.map_vars(&mut f));
             }
-            let run = match run_program(&q, base.run.answers.len() + 5, 1, tick_budget(base.reference.stats.steps)) {
-                Ok(r) => r,
-                Err(f) => return fail("engine-failure", format!("{}:engine:{}", self.id, f.signature()), format!("renamed program failed: {:?}\nrenamed:\n{}", f, q), p),
+            // the renamed program is solved twice: built through the API, and (when every clause
+            // has a source-text form) parsed from its text, where variable *names* are all the
+            // parser has to go by
+            let texts: Option<Vec<String>> = if text_presentable(&q) { Some(q.clauses.iter().map(|c| crate::render::clause(c, &crate::render::CANON)).collect()) } else { None };
+            let presentations: Vec<Option<&[String]>> = match &texts { Some(t) => vec![None, Some(&t[..])], None => vec![None] };
+            if texts.is_some() { rep.class("also-solved-from-source-text"); }
+          for pres in presentations {
+            let run = match run_program_src(&q, pres, base.run.answers.len() + 5, 1, tick_budget(base.reference.stats.steps)) {
+                Ok(Ok(r)) => r,
+                Ok(Err(msg)) => return fail("parser-rejected", format!("{}:parser-rejected", self.id), format!("{}\nrenamed:\n{}", msg, q), p),
+                Err(f) => return fail("engine-failure", format!("{}:engine:{}", self.id, f.signature()), format!("renamed program failed: {:?}\nrenamed{}:\n{}", f, if pres.is_some() { " (parsed from text)" } else { "" }, q), p),
             };
             let a: Vec<Vec<Term>> = base.run.answers.iter().map(|x| x.args.clone()).collect();
             let b: Vec<Vec<Term>> = run.answers.iter().map(|x| x.args.clone()).collect();
@@ -250,6 +258,7 @@ impl SolverProp {
                 return fail("renaming-changes-output", format!("{}:renaming-output", self.id),
                     format!("original: {:?} / {:?}\nrenamed:  {:?} / {:?}\nrenamed program:\n{}", oa, base.run.tail_out, ob, run.tail_out, q), p);
             }
+          }
         }
         let st = &base.reference.stats;
         let nonground = base.run.answers.iter().any(|a| a.args.iter().any(|t| !t.is_ground()));
@@ -260,6 +269,38 @@ impl SolverProp {
         }
         CaseResult::Pass
     }
+}
+
+/// Can every clause be written as source text that means exactly this clause?
+pub fn text_presentable(p: &Program) -> bool {
+    fn atom_ok(a: &str) -> bool {
+        !a.is_empty() && a.trim() == a && !a.chars().all(|c| c.is_ascii_digit() || c == '.' || c == '-' || c == '+')
+            && !a.contains(['(', ')', ',', '"', '[', ']', '|', '$', '\\']) && !a.contains(" = ") && !a.contains(" < ") && !a.contains(" > ")
+            && !a.contains("= ") && !a.contains("< ") && !a.contains("> ") && !a.contains(" + ") && !a.contains(" - ") && !a.contains(" * ") && !a.contains(" / ")
+            && !["fail", "nl", "!"].contains(&a)
+    }
+    fn term_ok(t: &Term) -> bool {
+        match t {
+            Term::Atom(a) => atom_ok(a),
+            Term::Float(f) => f.is_finite() && f.abs() < 1e15 && (f.abs() >= 1e-4 || *f == 0.0),
+            Term::Cmp(f, a) => atom_ok(f) && !["not", "time", "add", "subtract", "multiply", "divide", "join"].contains(&f.as_str()) && a.iter().all(term_ok),
+            Term::Func(_, a) => !a.is_empty() && a.iter().all(term_ok),
+            Term::List(es, tl) => es.iter().all(term_ok) && tl.as_ref().map_or(true, |t| matches!(**t, Term::Var(_) | Term::Anon)),
+            _ => true,
+        }
+    }
+    fn leaf(g: &Goal) -> bool { !matches!(g, Goal::And(_) | Goal::Or(_) | Goal::Not(_) | Goal::Time(_)) }
+    fn goal_ok(g: &Goal) -> bool {
+        match g {
+            Goal::And(gs) | Goal::Or(gs) => gs.len() >= 2 && gs.iter().all(goal_ok),
+            Goal::Not(x) | Goal::Time(x) => matches!(**x, Goal::Call(..)) && goal_ok(x),
+            Goal::Call(n, a) => atom_ok(n) && !crate::render::RESERVED.contains(&n.as_str()) && a.iter().all(term_ok),
+            Goal::BuiltIn(_, a) => !a.is_empty() && a.iter().all(term_ok),
+            Goal::Unify(a, b) | Goal::Compare(_, a, b) => term_ok(a) && term_ok(b),
+            g => leaf(g),
+        }
+    }
+    p.clauses.iter().all(|c| atom_ok(&c.name) && !crate::render::RESERVED.contains(&c.name.as_str()) && c.args.iter().all(term_ok) && c.body.as_ref().map_or(true, goal_ok))
 }
 
 fn count_output_goals(g: &Goal) -> u64 {
